@@ -52,7 +52,19 @@ def r20_1(chk: Check):
         if ok is None:
             ok, how = is_zero(sp.simplify(got_tan - true_tan), chk.seed, ranges={a: (0, 3)})
         chk.ob("R20.1", fim.where(), f"{nm} imaginary integrand is y^2 times the phase of the log argument (mod pi)", ok, how, key=f"phase|{nm}", how=how)
-    chk.floor("R20.1", 6)
+        # ... on the principal branch: the phase stays in [-pi/2, pi/2] for every a > 0 (the integrals are defined with the principal log)
+        ph = sp.simplify(im / y**2)
+        if isinstance(ph, sp.atan):
+            okb, howb = True, "outermost arctan"
+        else:
+            worst = 0.0
+            for k in range(1, 161):
+                val = abs(float(ph.subs(a, sp.Rational(k, 4) + sp.Rational(1, 97)).evalf(30)))
+                worst = max(worst, val)
+            okb, howb = worst <= float(sp.pi / 2) + 1e-9, f"max |phase| = {worst:.4g} for a in (0, 40]"
+        chk.ob("R20.1", fim.where(), f"{nm} imaginary integrand stays on the principal branch: |phase| <= pi/2 for all a (x down to -1600)", okb, howb,
+               key=f"principal-branch|{nm}", how=howb)
+    chk.floor("R20.1", 8)
 
 
 def _wrapper_structure(f_impl) -> dict:
